@@ -451,9 +451,13 @@ def parse_single_name_into_parts(name, strict=True):
             if 0 in cases:
                 # Index from end of list of first and last lowercase word.
                 firstl = cases.index(0) - len(cases)
-                lastl = -cases[::-1].index(0) - 1
-                if lastl == -1:
-                    lastl -= 1  # Cannot consume the rest of the string.
+                if 0 in cases[:-1]:
+                    # Last lowercase word that is not the final word
+                    # (von cannot consume the rest of the string).
+                    lastl = -cases[-2::-1].index(0) - 2
+                else:
+                    # Only the final word is lowercase: there is no von part.
+                    lastl = firstl - 1
 
                 # Pull the parts out.
                 parts.first = p0[:firstl]
